@@ -11,10 +11,12 @@ use std::sync::atomic::{AtomicU64, Ordering};
 use std::sync::{Arc, Condvar, Mutex};
 use std::task::{Context, Poll, Wake, Waker};
 
-const RULE: &str = "one case = one real multi-threaded execution of a writer thread (1 or 2 polls of poll_obtain_write_permission, counting waker) against an acknowledge(n) and/or disallow_write() performed by other threads on a standalone MuxStream, \
+const RULE: &str = "one case = one real multi-threaded execution of a writer thread (1 or 2 polls of poll_obtain_write_permission, counting waker) against an acknowledge(n) and/or disallow_write() performed by other threads on a standalone MuxStream (also with a do_shutdown() by a third, application thread before or after the close), \
 with initial credit 0/1/2; the observer hook blocks every thread at every hook event until a turn-taking scheduler releases it, so an execution is a chosen total order of hook events; all orders are enumerated depth-first by replay (plus random orders). \
 Oracle W1-W4: credit conserved (final = initial + acknowledged - taken), a writer left Pending has either been woken since its last poll began or credit is 0 and the stream is open, polls that begin after the close returned fail, a frame only with a unit of credit. \
 Plus a free-running stress (no scheduler): a writer thread taking credit in a tight loop against a thread granting it in a tight loop, judged by exact conservation at the end (reaches interleavings between individual atomic operations). Non-trivial = another thread's step landed inside a writer poll, or a stress round in which credit was taken while grants were in progress; distinct = distinct hook-event orders";
+
+const SHUTDOWN: u32 = u32::MAX;
 
 struct CountWaker(AtomicU64);
 impl Wake for CountWaker {
@@ -30,6 +32,8 @@ impl Wake for CountWaker {
 enum Step {
     Start,
     Hook(Kind),
+    /// the application-side `do_shutdown()` of a third thread has returned
+    ShutdownDone,
 }
 
 struct State {
@@ -84,7 +88,8 @@ fn install() {
 struct Config {
     c0: u32,
     polls: usize,
-    /// other threads: Some(n) = acknowledge(n), None = disallow_write()
+    /// other threads: Some(n) = acknowledge(n), None = disallow_write() by the connection task,
+    /// Some(SHUTDOWN) = `MuxStream::do_shutdown()` by another application thread (public, takes `&self`, wakes nobody)
     others: Vec<Option<u32>>,
 }
 
@@ -132,11 +137,15 @@ fn execute(cfg: &Config, prefix: &[usize], mut rng: Option<&mut Rng64>) -> Resul
         }));
     }
     for (i, o) in cfg.others.iter().enumerate() {
-        let (c, sc, o, t) = (ctl.clone(), sched.clone(), *o, i + 1);
+        let (c, sc, o, t, s2) = (ctl.clone(), sched.clone(), *o, i + 1, stream.clone());
         handles.push(std::thread::spawn(move || {
             TID.with(|c| c.set(Some(t)));
             sc.at(t, Step::Start);
             match o {
+                Some(SHUTDOWN) => {
+                    s2.do_shutdown();
+                    sc.at(t, Step::ShutdownDone);
+                }
                 Some(n) => c.acknowledge(n),
                 None => {
                     c.disallow_write();
@@ -183,9 +192,11 @@ fn execute(cfg: &Config, prefix: &[usize], mut rng: Option<&mut Rng64>) -> Resul
 }
 
 fn judge(st: &mut Stats, cfg: &Config, r: &Result1, engine: &str) {
-    let acked: u32 = cfg.others.iter().flatten().sum();
+    let acked: u32 = cfg.others.iter().flatten().filter(|n| **n != SHUTDOWN).sum();
+    let closed_by_task = cfg.others.iter().any(Option::is_none);
+    let app_shutdown = cfg.others.iter().any(|o| *o == Some(SHUTDOWN));
     let ready = r.polls.iter().filter(|(p, _)| p == "Ready(Some)").count() as u32;
-    let order: Vec<String> = r.trace.iter().map(|(t, s)| format!("T{t}:{}", match s { Step::Start => "Start".to_string(), Step::Hook(k) => format!("{k:?}") })).collect();
+    let order: Vec<String> = r.trace.iter().map(|(t, s)| format!("T{t}:{}", match s { Step::Start => "Start".to_string(), Step::ShutdownDone => "ShutdownDone".to_string(), Step::Hook(k) => format!("{k:?}") })).collect();
     let replay = || json!({"kind": "c12", "config": format!("{cfg:?}"), "engine": engine, "hook_order": order, "polls": format!("{:?}", r.polls), "final_credit": r.final_credit, "closed": r.closed, "wakes": r.wakes_total});
     // W1 conservation
     if r.final_credit != cfg.c0 + acked - ready {
@@ -200,7 +211,8 @@ fn judge(st: &mut Stats, cfg: &Config, r: &Result1, engine: &str) {
     if let Some((last, wakes_before)) = r.polls.last() {
         if last == "Pending" {
             let woken = r.wakes_total - wakes_before;
-            let may_sleep = r.final_credit == 0 && !r.closed;
+            // (a local do_shutdown() alone wakes nobody by design: without a close by the connection task nothing is demanded then)
+            let may_sleep = (r.final_credit == 0 && !r.closed) || (app_shutdown && !closed_by_task);
             if woken == 0 && !may_sleep {
                 let why = if r.closed { "the stream was closed for writing" } else { "credit is available" };
                 st.violation(Violation {
@@ -212,14 +224,14 @@ fn judge(st: &mut Stats, cfg: &Config, r: &Result1, engine: &str) {
         }
     }
     // W3 polls that began after disallow_write returned must fail
-    if let Some(close_done) = r.trace.iter().position(|(_, s)| matches!(s, Step::Hook(Kind::DisallowWoke))) {
+    if let Some(close_done) = r.trace.iter().position(|(_, s)| matches!(s, Step::Hook(Kind::DisallowWoke) | Step::ShutdownDone)) {
         let mut poll_idx = 0;
         for (i, (t, s)) in r.trace.iter().enumerate() {
             if *t == 0 && matches!(s, Step::Hook(Kind::WritePollBegin)) {
                 if i > close_done {
                     if let Some((res, _)) = r.polls.get(poll_idx) {
                         if res != "Ready(None)" {
-                            st.violation(Violation { signature: "poll-after-close-succeeded".into(), detail: format!("a poll that began after disallow_write had returned yielded {res}; order {order:?}"), replay: replay() });
+                            st.violation(Violation { signature: "poll-after-close-succeeded".into(), detail: format!("a poll that began after disallow_write / do_shutdown had returned yielded {res}; order {order:?}"), replay: replay() });
                         }
                     }
                 }
@@ -250,7 +262,7 @@ fn judge(st: &mut Stats, cfg: &Config, r: &Result1, engine: &str) {
             inside = true;
             if window {
                 match s {
-                    Step::Start | Step::Hook(Kind::AckApplied { .. }) if cfg.others[*t - 1].is_some() => st.target("ack_inside_check_then_register_window", 1),
+                    Step::Start | Step::Hook(Kind::AckApplied { .. }) if cfg.others[*t - 1].is_some_and(|n| n != SHUTDOWN) => st.target("ack_inside_check_then_register_window", 1),
                     Step::Start | Step::Hook(Kind::WriteDisallowed) if cfg.others[*t - 1].is_none() => st.target("close_inside_check_then_register_window", 1),
                     _ => {}
                 }
@@ -390,13 +402,19 @@ pub fn run(p: &Params) -> (Stats, &'static str) {
     let mut configs: Vec<Config> = Vec::new();
     for c0 in 0..=2u32 {
         for polls in 1..=2usize {
-            for others in [vec![Some(1)], vec![Some(2)], vec![None], vec![Some(1), None], vec![Some(1), Some(1)]] {
+            for others in [vec![Some(1)], vec![Some(2)], vec![None], vec![Some(1), None], vec![Some(1), Some(1)], vec![Some(SHUTDOWN), None], vec![Some(SHUTDOWN)]] {
                 configs.push(Config { c0, polls, others });
             }
         }
     }
     let (limit, repeats, random_runs) = if miri { (120u64, 1u32, 20u64) } else if p.tier_thorough { (u64::MAX, 3, 4000) } else { (2500, 1, 300) };
     let mut orders = 0u64;
+    // `--only close`: the configurations in which the connection task closes the stream (used by C06: a peer Reset
+    // racing with a writer parked at zero credit must end in BrokenPipe, not in a sleep)
+    let only_close = p.get("only") == Some("close");
+    if only_close {
+        configs.retain(|c| c.others.iter().any(Option::is_none));
+    }
     for (i, cfg) in configs.iter().enumerate() {
         if i as u64 % p.nshards != p.shard {
             continue;
@@ -415,12 +433,12 @@ pub fn run(p: &Params) -> (Stats, &'static str) {
         }
     }
     st.count("hook_orders_enumerated", orders);
-    {
+    if !only_close {
         let (rounds, grants) = if miri { (6, 12) } else if p.tier_thorough { (400, 20_000) } else { (60, 20_000) };
         stress(&mut st, &mut rng, rounds, grants, engine);
     }
     if !miri && p.tier_thorough {
-        st.exhaustive.push("all total orders of hook events for initial credit 0..2 x 1-2 writer polls x {ack(1), ack(2), close, ack+close, ack+ack}".into());
+        st.exhaustive.push("all total orders of hook events for initial credit 0..2 x 1-2 writer polls x {ack(1), ack(2), close, ack+close, ack+ack, app-shutdown+close, app-shutdown}".into());
     }
     st.sample(json!({"config": "c0=0 polls=1 others=[ack(1)]", "one_order": ["T0:Start", "T0:WritePollBegin", "T0:WriteAllowedSeen", "T0:CreditSeenZero", "T1:Start", "T1:AckApplied{n:1}", "T1:AckWoke", "T0:WakerRegistered"],
         "oracle": "writer Pending + credit 1 + not woken => lost wake-up"}));
